@@ -423,4 +423,70 @@ example : (runSteps (init [7, 8, 9] [7, 0, 0] [true, true, false])
 -- the sender may not end before re-sending the damaged chunk
 example : (runSteps (init [7, 8, 9] [7, 0, 0] [true, true, false]) [.send 2, .sendEnd]) = none := by decide
 
+
+/-! ## the whole manifest
+
+Files are independent machines: every chunk frame and every per-file control record carries its file key, the receiver
+looks the state up by that key (`recvFileStateMux`), and keys of distinct manifest items are distinct. A manifest-level
+state is the list of per-file states in manifest order; a manifest-level step is a per-file step of the file its key
+denotes. Interleaving across files, streams and connections is arbitrary. -/
+
+structure FileCfg where
+  src : List Nat
+  disk0 : List Nat
+  bits0 : List Bool
+
+def minit (fs : List FileCfg) : List St := fs.map fun f => init f.src f.disk0 f.bits0
+
+inductive MReach (fs : List FileCfg) : List St → Prop
+  | init : MReach fs (minit fs)
+  | step {m : List St} {j : Nat} {s s' : St} {a : Step} :
+      MReach fs m → m[j]? = some s → step s a = some s' → MReach fs (m.set j s')
+
+/-- every component of a reachable manifest state is reachable in its own per-file system -/
+theorem mreach_proj {fs : List FileCfg} {m : List St} (h : MReach fs m) :
+    m.length = fs.length ∧ ∀ (j : Nat) (f : FileCfg) (s : St), fs[j]? = some f → m[j]? = some s → Reachable (init f.src f.disk0 f.bits0) s := by
+  induction h with
+  | init =>
+    refine ⟨by simp [minit], ?_⟩
+    intro j f s hf hs
+    simp only [minit, List.getElem?_map, hf, Option.map_some, Option.some.injEq] at hs
+    subst hs
+    exact Reachable.init
+  | @step m j s s' a _ hj hs ih =>
+    refine ⟨by simp [ih.1], ?_⟩
+    intro j' f t hf ht
+    rw [List.getElem?_set] at ht
+    split at ht
+    · rename_i hjj
+      subst hjj
+      split at ht
+      · cases ht
+        exact Reachable.step (ih.2 j f s hf hj) hs
+      · cases ht
+    · exact ih.2 j' f t hf ht
+
+/-- **C01_manifest_fidelity.** Whatever the interleaving of the files' frames and records over any number of streams and
+    connections: when the receiver has finalised *every* file of the manifest with ok = true (its condition for returning
+    success), every chunk of every file holds the source bytes. -/
+theorem C01_manifest_fidelity (fs : List FileCfg) (h0 : ∀ f ∈ fs, InitOk f.src f.disk0 f.bits0)
+    (m : List St) (hr : MReach fs m) (hall : ∀ s ∈ m, s.fin = some true) :
+    ∀ (j : Nat) (f : FileCfg) (s : St), fs[j]? = some f → m[j]? = some s → ∀ i, i < f.src.length → gn s.disk i = gn f.src i := by
+  intro j f s hf hs
+  have hreach := (mreach_proj hr).2 j f s hf hs
+  exact C01_file_fidelity f.src f.disk0 f.bits0 (h0 f (List.mem_of_getElem? hf)) s hreach
+    (hall s (List.mem_of_getElem? hs))
+
+/-- a file finalised with ok = true is correct whatever happens to the other files (one failing file cannot make another
+    one silently wrong) -/
+theorem C01_manifest_file_independent (fs : List FileCfg) (h0 : ∀ f ∈ fs, InitOk f.src f.disk0 f.bits0)
+    (m : List St) (hr : MReach fs m) (j : Nat) (f : FileCfg) (s : St) (hf : fs[j]? = some f) (hs : m[j]? = some s)
+    (hfin : s.fin = some true) : ∀ i, i < f.src.length → gn s.disk i = gn f.src i :=
+  C01_file_fidelity f.src f.disk0 f.bits0 (h0 f (List.mem_of_getElem? hf)) s ((mreach_proj hr).2 j f s hf hs) hfin
+
+-- non-vacuity: two files, frames of the second sent before frames of the first
+example : ∃ m, MReach [⟨[7], [0], [false]⟩, ⟨[8, 9], [0, 0], [false, false]⟩] m ∧ (m.map (·.sentCount)) = [1, 1] := by
+  refine ⟨_, MReach.step (j := 0) (a := .send 0) (MReach.step (j := 1) (a := .send 1) MReach.init rfl rfl) rfl rfl, ?_⟩
+  decide
+
 end TV.FileSys
